@@ -111,6 +111,13 @@ int BZ2_bzDecompressEnd(bz_stream *s);
 #define ZSTD_H_235446
 typedef struct ZSTD_CStream_s ZSTD_CStream;
 typedef struct ZSTD_DStream_s ZSTD_DStream;
+typedef ZSTD_CStream ZSTD_CCtx;
+typedef ZSTD_DStream ZSTD_DCtx;
+/* parameter setters: accepted and ignored by the fake library (their effect is a matter of the real library: tool level) */
+typedef enum { ZSTD_c_compressionLevel = 100, ZSTD_c_windowLog = 101, ZSTD_c_checksumFlag = 201 } ZSTD_cParameter;
+typedef enum { ZSTD_d_windowLogMax = 100 } ZSTD_dParameter;
+static inline size_t ZSTD_CCtx_setParameter(ZSTD_CCtx *c, ZSTD_cParameter p, int v) { (void)c; (void)p; (void)v; return 0; }
+static inline size_t ZSTD_DCtx_setParameter(ZSTD_DCtx *d, ZSTD_dParameter p, int v) { (void)d; (void)p; (void)v; return 0; }
 typedef struct { const void *src; size_t size; size_t pos; } ZSTD_inBuffer;
 typedef struct { void *dst; size_t size; size_t pos; } ZSTD_outBuffer;
 typedef enum { ZSTD_e_continue = 0, ZSTD_e_flush = 1, ZSTD_e_end = 2 } ZSTD_EndDirective;
